@@ -485,4 +485,3 @@ func (it *stringIter) next() tuple {
 	it.i += n
 	return okv
 }
-
